@@ -105,6 +105,8 @@ pub fn profile(prop: &str) -> Option<Profile> {
         "C04" => p("C04", &all_deque_ops(), Family::None, 50, 20),
         // C04 under faults: stale copies touched while unwinding (second destructor runs, ...)
         "C04f" => p("C04f", &all_deque_ops(), Family::Any, 50, 15),
+        // ... with the destructor-panic family focused on the element-destroying operations
+        "C04d" => p("C04d", DESTROYERS, Family::Drop, 60, 10),
         "C05" => p("C05", DESTROYERS, Family::Drop, 60, 10),
         "C06" => p("C06", USERCODE, Family::User, 60, 10),
         "C07" => p("C07", VIEWS, Family::None, 60, 30),
@@ -167,9 +169,9 @@ fn idx_arg(rng: &mut Rng, len: usize, n: usize, junk: u32) -> usize {
 }
 
 fn len_arg(rng: &mut Rng, free: usize, n: usize) -> usize {
-    let c = [0, 1, free.wrapping_sub(1), free, free + 1, n.wrapping_sub(1), n, n + 1, 2 * n + 1];
+    let c = [0, 1, free.wrapping_sub(1), free, free + 1, n.wrapping_sub(1), n, n + 1, 2 * n + 1, 3 * n + 2];
     let k = if rng.below(10) < 6 { *rng.pick(&c) } else { rng.below(2 * n as u64 + 2) as usize };
-    if k > 2 * n + 1 {
+    if k > 3 * n + 2 {
         0
     } else {
         k
@@ -249,7 +251,7 @@ fn word(rng: &mut Rng, sel: usize, letters: &[u8], weights: &[u32]) -> Vec<u8> {
         // a jump (nth / nth_back, in range, zero, or far beyond the end) somewhere in the word
         2 | 3 => {
             let mut w: Vec<u8> = (0..l).map(|_| letters[rng.weighted(weights)]).collect();
-            let j = *rng.pick(b"tTuUoO");
+            let j = *rng.pick(b"tTuUoOmMhHgG");
             let at = rng.below(w.len() as u64 + 1) as usize;
             w.insert(at, j);
             w
@@ -281,7 +283,7 @@ impl GenState {
             ExtendFromSlice => st.vals = vals!(rng, len_arg(rng, free, n)),
             Extend => {
                 st.vals = vals!(rng, len_arg(rng, free, n));
-                st.b = rng.below(6) as usize;
+                st.b = rng.below(7) as usize;
                 if rng.below(5) == 0 {
                     // as one half of a pair (tuple `Extend`)
                     st.c = 3;
@@ -333,7 +335,7 @@ impl GenState {
             }
             FromIter => {
                 st.vals = vals!(rng, len_arg(rng, n, n));
-                st.b = rng.below(5) as usize;
+                st.b = rng.below(6) as usize;
             }
             EqSlice => {
                 st.a = rng.below(8) as usize;
@@ -467,7 +469,7 @@ impl GenState {
             },
             FaultKind::Clone => match st.op {
                 ExtendFromSlice => k.min(n),
-                Extend if st.b % 6 == 3 => k,
+                Extend if st.b % 7 == 3 => k,
                 Fill => n.saturating_sub(1),
                 FillSpare => (n - len.min(n)).saturating_sub(1),
                 CloneTo | CloneFrom | ToVec => len,
@@ -481,7 +483,7 @@ impl GenState {
                 _ => 0,
             },
             FaultKind::Iter => match st.op {
-                Extend if st.b % 6 != 3 => k + 1,
+                Extend if st.b % 7 != 3 => k + 1,
                 FromIter => k + 1,
                 _ => 0,
             },
@@ -505,7 +507,7 @@ impl GenState {
 fn user_kind_for(op: Op, st: &Step, rng: &mut Rng) -> FaultKind {
     match op {
         FillWith | FillSpareWith => FaultKind::Closure,
-        Extend if st.b % 6 != 3 => FaultKind::Iter,
+        Extend if st.b % 7 != 3 => FaultKind::Iter,
         FromIter => FaultKind::Iter,
         CmpBufs | EqSlice | DebugFmt | CrossCmp => FaultKind::Cmp,
         Iter | Range | IterMut | RangeMut => FaultKind::Cmp,
